@@ -580,7 +580,7 @@ pub fn main(a: &Args) {
     };
 
     // ----- exhaustive over type sequences -----
-    let maxlen: usize = if a.thorough() { 8 } else { 6 };
+    let maxlen: usize = if a.thorough() { 9 } else { 7 };
     let mut exh_total = 0u64;
     let mut exh_accepted = 0u64;
     let mut exh_err = 0u64;
@@ -614,7 +614,7 @@ pub fn main(a: &Args) {
     }
 
     // ----- random longer contours -----
-    let nrand: u64 = if a.thorough() { 200_000 } else { 8_000 };
+    let nrand: u64 = if a.thorough() { 200_000 } else { 20_000 };
     let mut rmodel = Sums::new(BS_RAND);
     let mut rspec = Sums::new(BS_RAND);
     let mut rand_accepted = 0u64;
@@ -653,7 +653,7 @@ pub fn main(a: &Args) {
     write_file(&a.out.join("rand_samples.txt"), &samples);
 
     // ----- transforms -----
-    let ntr: u64 = if a.thorough() { 10_000_000 } else { 100_000 };
+    let ntr: u64 = if a.thorough() { 10_000_000 } else { 1_000_000 };
     let mut tr = Sums::new(BS_TR);
     let mut trk = Sums::new(BS_TR);
     let mut tr_nonfinite = 0u64;
